@@ -32,28 +32,28 @@ prop("C01", BACKPROP,
      expl="Local half proved: the seed is all ones of the root's shape; backward marks the target spent before invoking the edge function, accumulates by element-wise addition (accumulateGrad), walks every back edge, stops at the first error, writes only tracked contexts, keeps the graph invariant. Global half (each edge once, in topological order) is a whole-graph property decided by the bounded stand-in.")
 prop("C02", G(RULES),
      bounded=[("TestRuleValues", "values of the sigma-operation rules (Sum/Max/Min/Avg/Var/Std/MeanAlong, Dot, MatMul) and a cross-check of all 33 rules against central finite differences", "all operand shapes of rank <= 3 with sizes <= 3, every dim, every tracked subset, non-uniform upstream weights (the op is followed by Mul with a random untracked tensor)")],
-     paper=["derivative table of DESIGN.md 3.5 (calculus)", "LEX, PROD, SUM-EXT (DESIGN.md section 8)"],
+     paper=["derivative table of DESIGN.md 3.5 (calculus)", "PROD, SUM-EXT (DESIGN.md section 8); LEX is machine-checked (lemmas valSucc ... lexUnsq, lexSq)"],
      expl="Every backward rule (33 constructors, 43 closures) is symbolically executed against the interface contracts of the tensor methods: the rule never fails after an accepted forward call, its result has exactly the operand's shape and is a spent untracked tensor, and (element-wise, relocation and fibre-position rules) its value is upstream times the derivative from the calculus table, with definedness obligations where a finite result is demanded.")
 prop("C03", M(UN + CMP + ["ElMax", "ElMin"] + AR + ["Equals", "Broadcast"]) + ["cputensor.broadcastForBinaryOp", "cputensor.targetBroadcastDims", "validator.ValidateBinaryFuncDimsMatch", "validator.ValidateBroadcastSourceDimsAgainstTargetDims", "validator.ValidateInputDims"],
-     bounded=[("TestElementwise", "L2 leaf contracts applyUnary/BinaryFuncOnTensor(s)ElemWise, equals, broadcast (element generators + fill)", "all shapes of rank <= 4 with sizes <= 3 (and every broadcast-compatible pair), values including zeros, negatives, ties and 1e300-scale magnitudes")],
+     bounded=[("TestElementwise", "cross-check of the proved element-wise recursions and the broadcast generator; stand-in for the assumed contract of equals", "all shapes of rank <= 4 with sizes <= 3 (and every broadcast-compatible pair), values including zeros, negatives, ties and 1e300-scale magnitudes")],
      paper=["COUNT: a sum of n values in {0,1} is >= n iff all are 1 (Equals)"],
-     expl="Public element-wise operations are proved against the internal operations; the 22 scalar closures are executed symbolically (their bodies are the semantics of the function values); broadcasting is proved from targetBroadcastDims / the Broadcast validator via the lemmas btarget*. The tree recursion and the broadcast element generator are assumed contracts with a bounded stand-in.")
+     expl="Public element-wise operations are proved against the internal operations; the 22 scalar closures are executed symbolically (their bodies are the semantics of the function values); broadcasting is proved from targetBroadcastDims / the Broadcast validator via the lemmas btarget*. The tree recursions (calcData) and the broadcast element generator with initWith.fill are proved as well (Map1/Map2 tree relations, generator protocol); only equals (COUNT) is an assumed contract with a bounded stand-in.")
 prop("C04", M(["MatMul", "Dot", "Transpose"]) + ["cputensor.broadcastForMatMul", "cputensor.broadcastForBinaryOp", "cputensor.matMulDims", "cputensor.dotDims", "cputensor.transposeDims", "validator.ValidateMatMulDims", "validator.ValidateDotProductDims", "validator.ValidateTransposeDims"],
-     bounded=[("TestLinalg", "L2 leaf contracts matMul, dot, transpose: element values (sum of products, swapped indices) and the identities A.I = A, (A.B)^T = B^T.A^T", "ranks 1..4, m,n,k in 1..3, every broadcast-compatible batch-shape pair with sizes <= 2")],
+     bounded=[("TestLinalg", "cross-check of the proved matMul / dot / transpose (element values, swapped indices) and the identities A.I = A, (A.B)^T = B^T.A^T", "ranks 1..4, m,n,k in 1..3, every broadcast-compatible batch-shape pair with sizes <= 2")],
      paper=["SUM-EXT: sums of products depend only on the elements of the operands", "matrix identities follow from the element formula (algebra)"],
-     expl="Shapes, error conditions and the broadcasting of batch dimensions are proved for every rank; the element values are the assumed contracts of the batch generators / matMulDataOf2DInputs with a bounded stand-in.")
+     expl="Shapes, error conditions and the broadcasting of batch dimensions are proved for every rank; the element values are proved too: dsum / msum are defined by partial sums along the contracted dimension, dotProductOf1DInputs and the triple loop matMulDataOf2DInputs are proved against them, and the batch generators and the transpose generator are proved under the generator protocol (DESIGN.md 0.4).")
 prop("C05", M(WHOLE + ALONG) + ["cputensor.squeezeDims", "validator.ValidateReducedDimAgainstDims", "cputensor.CPUTensor.numElems"],
-     bounded=[("TestReducers", "L2 leaf contracts sum/max/min/_var (fold over the nested data) and reduceDimUsingFunc (generator with reduced dimension)", "all shapes of rank <= 4 with sizes <= 3, every dim, random values")],
-     paper=["EXTREMUM: folding max/min from -Inf/+Inf over a non-empty fibre yields its extremum"],
-     expl="SumAlong..MeanAlong are proved to have the operand's shape with dim removed and to be the whole-tensor statistic of each fibre (the reducer closures are executed symbolically; avg = sum/n, std = sqrt(var)); the folds themselves are assumed contracts with a bounded stand-in.")
+     bounded=[("TestReducers", "cross-check of the proved folds sum/max/min/_var and of reduceDimUsingFunc (generator with reduced dimension), including extreme magnitudes", "all shapes of rank <= 4 with sizes <= 3, every dim, random values")],
+     paper=["EXTREMUM: folding max/min from -Inf/+Inf over a non-empty fibre yields its extremum (the fold is the definition of tmax/tmin)", "STAT-EXT: a whole-tensor statistic depends only on shape and elements"],
+     expl="SumAlong..MeanAlong are proved to have the operand's shape with dim removed and to be the whole-tensor statistic of each fibre (the reducer closures are executed symbolically; avg = sum/n, std = sqrt(var)); the folds themselves are proved: tsum/tmax/tmin/tvar are defined as the row-major left fold from 0 / -Inf / +Inf and the recursion trav is proved to compute that fold; the reduced-dimension generator is proved under the generator protocol.")
 prop("C06", M(["At", "Slice", "Patch", "Reshape", "Flatten", "Squeeze", "UnSqueeze", "Broadcast", "NElems", "Shape"]) + ["tensor.Full", "tensor.Zeros", "tensor.Ones", "tensor.Eye", "tensor.Concat", "cputensor.completeIndex",
      "validator.ValidateAtIndexAgainstDims", "validator.ValidateSliceIndexAgainstDims", "validator.ValidatePatchIndexAgainstDims", "validator.ValidateConcatTensorsDimsAlongDim", "validator.ValidateReshapeSourceDimsAgainstTargetDims",
      "validator.ValidateUnSqueezeDimAgainstDims", "validator.ValidateSqueezeDimAgainstDims", "validator.ValidateFlattenDimAgainstDims", "cputensor.unsqueezeDims", "cputensor.squeezeDims", "cputensor.flattenDims"],
-     bounded=[("TestSlicePatch", "L2 leaf contracts copiedSliceOf / copiedWithPatchOf / dataAt", "all shapes of rank <= 3 with sizes <= 3, every combination of explicit / omitted / {0,0} ranges, every source block size and position"),
-              ("TestShapeOps", "L2 leaf contracts reshape / transpose / broadcast element generators (row-major sequence preserved)", "all shapes of rank <= 3 (thorough: 4) with sizes <= 3, every element-count-preserving target, and every Broadcast target of rank <= 3 with sizes <= 3 plus all rank-4 targets with sizes <= 2"),
-              ("TestConstructors", "constTensor, eyeMatrix, initTensorFromData (TensorOf), initConcatResultTensor", "ranks <= 4, sizes <= 3; Concat of 2..3 operands along every dim")],
-     paper=["LEX: the odometer successor increments the row-major rank (Reshape family)", "PROD: element count of unsqueezed / squeezed / flattened shapes"],
-     expl="Validators are characterised exactly; Slice / Patch / At / Concat / Reshape family / Broadcast / constructors are proved against the contracts of the L2 leaf functions (index arithmetic: completeIndex, rfrom/rwidth, catoff); the leaf functions (tree recursions, element generators) are assumed with bounded stand-ins.")
+     bounded=[("TestSlicePatch", "assumed contract of copiedWithPatchOf; cross-check of the proved copiedSliceOf / dataAt", "all shapes of rank <= 3 with sizes <= 3, every combination of explicit / omitted / {0,0} ranges, every source block size and position"),
+              ("TestShapeOps", "cross-check of the proved reshape / transpose / broadcast element generators (row-major sequence preserved)", "all shapes of rank <= 3 (thorough: 4) with sizes <= 3, every element-count-preserving target, and every Broadcast target of rank <= 3 with sizes <= 3 plus all rank-4 targets with sizes <= 2"),
+              ("TestConstructors", "initTensorFromData (TensorOf: no contract) and the assumed contract of initConcatResultTensor; cross-check of the proved constTensor / eyeMatrix", "ranks <= 4, sizes <= 3; Concat of 2..3 operands along every dim")],
+     paper=["PROD: element count of unsqueezed / squeezed / flattened shapes (LEX - the odometer successor increments the row-major position - is machine-checked)"],
+     expl="Validators are characterised exactly; Slice / Patch / At / Concat / Reshape family / Broadcast / constructors are proved against the contracts of the L2 leaf functions (index arithmetic: completeIndex, rfrom/rwidth, catoff); the leaf functions are proved as well (generator protocol with initWith.fill, copiedSliceOf, dataAt, the row-major position theory LEX) except copiedWithPatchOf and initConcatResultTensor, which are assumed with bounded stand-ins, and TensorOf, which has no contract.")
 prop("C07", G(["Broadcast"]) + ["cputensor.broadcastForBinaryOp", "cputensor.broadcastForMatMul", "cputensor.CPUTensor.Broadcast"],
      bounded=[("TestBroadcastGrad", "value of the Broadcast rule: the gradient of the source is the SUM of the upstream gradient over all copies (explicit Broadcast and implicit expansion in Add/Sub/Mul/Div/Dot/MatMul, either operand)", "all (source, target) pairs with target rank <= 3 and sizes <= 3, expansion factor 1 included")],
      paper=["Fubini: iterated fibre sums equal the sum over the pre-image"],
@@ -94,7 +94,7 @@ prop("C16", ["layers.*"],
 prop("C17", ["optimizers.*"], level="proof",
      expl="SGD.Update: error and no replacement when the pointer, the tensor or its gradient is nil; otherwise *wptr is a new tensor of the same shape with el = w - lr*g for any lr; the old tensor and its gradient are not written (empty heap frame).")
 prop("C18", ["initializers.*", "tensor.RandU", "tensor.RandN", "tensor.Full"],
-     bounded=[("TestRandom", "uniformRandomTensor / normalRandomTensor: one fresh draw per element (no hoisted draw), support [l,u), sample moments", "shapes up to 4x5x5; 20000 draws for the moment check")],
+     bounded=[("TestRandom", "one fresh draw per element (no hoisted draw) and the sample moments; cross-check of the proved uniformRandomTensor / normalRandomTensor", "shapes up to 4x5x5; 20000 draws for the moment check")],
      assumptions=["gonum distuv.{Uniform,Normal}.Rand() draws independent samples of the named law (external code)"],
      expl="Every initializer returns a tracked leaf of exactly the requested shape; the distribution parameters handed to RandU / RandN are exactly +-sqrt(6/fanIn), +-sqrt(6/(fanIn+fanOut)), sqrt(2/fanIn), sqrt(2/(fanIn+fanOut)), the configured or the default values; uniform draws lie in [lower, upper). The statistical law is an assumption.")
 prop("C19", ["metrics.*"],
